@@ -44,7 +44,7 @@ def shrink_candidates(case):
             c = copy.deepcopy(case)
             c['prog']['k'] = k
             yield c
-    for k, v in (('trace', 'none'), ('stall_p', 0.0), ('preempt_p', 0.0)):
+    for k, v in (('trace', 'none'), ('pool_delay_p', 0.0), ('stall_p', 0.0), ('preempt_p', 0.0)):
         if case['knobs'].get(k) != v:
             c = copy.deepcopy(case)
             c['knobs'][k] = v
